@@ -39,9 +39,10 @@ CHECKS.update({
             'ctor/tearDown/instance ids; lifecycle rules evaluated on the real event log and compared with the model', _EXEC_NOTE,
             'DESIGN.md 5/C08'),
     'C09': ('TLA+ spec Lifecycle.tla (NoLeak, CallbacksInOrder, AllCallbacksAtEnd, OverlapDisturbsNothing, ReturnIffPass) checked by TLC; TLC-emitted execute() histories replayed on one real Test object',
-            'every history of <=3 execute() calls (8 exit paths x raising-callback subsets x overlapping call x dut id) enumerated by TLC is replayed '
+            'every history of <=3 execute() calls (8 exit paths x raising-callback subsets x overlapping call {none, while running, while finalizing} x dut id) enumerated by TLC is replayed '
             'on a single real Test object; callbacks snapshot the record they receive (finality, times, dut id, metadata, phases); Test.state, '
-            'TEST_INSTANCES and the openhtf logger handlers are inspected after every call', _EXEC_NOTE, 'DESIGN.md 5/C09'),
+            'TEST_INSTANCES and the openhtf logger handlers are inspected after every call; the record clauses are also judged on every schedule of the single-abort sweep '
+            '(abort at every scheduling point, deterministic scheduler) and on runs with real threads and a real SIGINT delivered while execute() waits for the executor', _EXEC_NOTE, 'DESIGN.md 5/C09'),
     'C06': ('TLA+ spec Measurement.tla (OutcomeFormula, MarginalFormula, NoPartiallySet, OrderStable, RejectedChangeNothing) checked by TLC; emitted assignment histories replayed in real phases',
             'all histories of <=3 (quick) / <=4 (thorough) body statements x 8 validator lists x 3 transforms on a scalar and a dimensioned measurement, '
             'enumerated by TLC; each runs as the body of a real phase; in-memory outcome/marginal/recorded value compared with the model after every '
@@ -69,10 +70,10 @@ CHECKS.update({
             'all device response scripts over {INFO,OKAY,DATA(match),DATA(mismatch),FAIL,junk} up to length 3 (quick) / 4 (thorough) x 8 commands / 8 image sizes around multiples of the '
             'chunk size; packets, chunk boundaries, callback calls, return values and exception classes compared with the model', 
             'trusted: TLC, the scripted fake bootloader; chunk size set through the module constant that the --fastboot_download_chunk_size_kb flag targets', 'DESIGN.md 5/C16'),
-    'C14': ('TLA+ specs AdbMux.tla (FIFO exactly-once, acks, chunking) and ReadUntil.tla (PlusCal reader-election protocol, Termination under fairness) checked by TLC; TLC-emitted multiplexer histories replayed; real reader/writer threads explored by preemption-bounded DFS under a deterministic scheduler',
+    'C14': ('TLA+ specs AdbMux.tla (FIFO exactly-once, acks, chunking) and ReadUntil.tla (PlusCal reader-election protocol, Termination under fairness) and ReadForStream.tla (reader election across streams, queue re-check) checked by TLC; TLC-emitted multiplexer histories (incl. partial reads read(n) of multi-symbol messages) replayed; real reader/writer threads explored by preemption-bounded DFS under a deterministic scheduler',
             'TLC: AdbMux invariants for 2-3 streams with arbitrary device message interleavings; ReadUntil terminates (the pinned protocol and the half repair deadlock in the same model). '
             'Every emitted history is replayed on the real AdbConnection over a reactive fake device (results, data, every host message compared). Reader/writer threads on the real code '
-            'are explored with <=1 (quick) / <=2 (thorough) preemptions in three scenarios with and without timeouts; each run is judged on deadlock, spurious timeouts, delivery and ack counts',
+            'are explored with <=1 (quick) / <=2 (thorough) preemptions in four scenarios with and without timeouts (the 10 ms queue poll may expire early); each run is judged on deadlock, spurious timeouts, delivery and ack counts',
             'trusted: TLC, checks/muxlib.py fake device, vf/sched.py + vf/explore.py (preemption at synchronisation operations and transport calls only)', 'DESIGN.md 5/C14'),
     'C15': ('TLA+ specs AdbConnect.tla (handshake automaton) and AdbMux.tla (id allocator, open/close/remote-close) checked by TLC; every emitted handshake run and open/close history replayed on the real AdbConnection',
             'all device reply scripts of length <=5 over {CNXN, malformed CNXN, AUTH token, other AUTH, noise, silence} x 0-2 keys (11 718 runs): connection attributes, signed tokens, key order, '
@@ -84,9 +85,9 @@ CHECKS.update({
             'validated by one TLC run re-using Subscribe\'s actions; plus whole test runs with two watcher threads under seeded random schedules and in-body probes for measurement/log/dut_id notifications',
             'trusted: TLC, vf/sched.py (cooperative primitives log lock and event operations), vf/explore.py, vf/tracecheck.py', 'DESIGN.md 5/C18'),
     'C12': ('TLA+ specs PhaseTimeout.tla (discrete-time deadline polling) and KillableThread.tla (PlusCal run/kill protocol, Termination) checked by TLC; timeout rows replayed on the real executor in virtual time; a real KillableThread explored by preemption-bounded DFS',
-            'every (timeout, duration incl. never-returning, body result) row is run through the real executor under virtual time inside a group with teardown phase and plug: phase result, run outcome, teardown, plug '
+            'every (timeout, duration incl. never-returning, linger of the finished thread, body result) row is run through the real executor under virtual time inside a group with teardown phase and plug: phase result, run outcome, teardown, plug '
             'tearDown and the time the executor proceeds; all interleavings (<=3 / <=4 preemptions) of start(), kill() and the thread on a real KillableThread subclass judged against KillBeforeStart / '
-            'KillAfterBodyNoEffect / ConfinedToBody; late effects of an abandoned body probed',
+            'KillAfterBodyNoEffect / ConfinedToBody / FlagBeforeLockMeansNoBody; late effects of an abandoned body probed',
             'trusted: TLC, vf/sched.py virtual time and async-exception shim (delivery at scheduling points only)', 'DESIGN.md 5/C12'),
     'C04': ('TLA+ (PlusCal) spec AbortHandshake.tla (AtMostOneBody, NoStartAfterAbortReturned, NoBodyAfterFinalize, AbortedWins, TeardownAllRun, ExecReturns, AbortsReturn) checked by TLC; whole aborted runs of the real executor explored under a deterministic scheduler with simulated SIGINT and judged against the same formulas',
             'TLC: executor / phase threads / two aborters at flag-and-lock granularity, safety + liveness; the originally pinned protocol violates NoStartAfterAbortReturned in the same model. Real code: 5 programs '
@@ -144,7 +145,10 @@ def main():
       engines=[dict(name='tlc+replay', path='/verif/vf',
                     serves_properties=sorted(CHECKS),
                     kind_free_text='TLA+ specifications under /verif/specs checked by TLC; TLC-emitted behaviours replayed on the real '
-                    'code and traces recorded from the real code validated by TLC')],
+                    'code and traces recorded from the real code validated by TLC'),
+               dict(name='extension:monitors', path='/verif/checks/x01.py', serves_properties=[],
+                    kind_free_text='specification coverage beyond the listed properties: specs/Monitor.tla + Monitor_trace.tla '
+                    '(openhtf.core.monitors); ./check X01 --tier quick|thorough; evidence in evidence_extra/X01.json')],
       checks=checks,
       not_applicable=na,
       notes='All checks: ./check <ID> --tier quick|thorough. Exit 0 ok, 1 violation, 2 machinery failure.')
